@@ -6,56 +6,8 @@ From KdV Require Import Parse.Bounded Parse.BoundedProofs Parse.NotesModel Parse
      Parse.ElfModel.
 Import ListNotations.
 Local Open Scope N_scope.
-
-(** "good": neither a forbidden outcome nor out of fuel, and an error carries
-    an error status; the internal KDUMP_NOPROBE only for a wrong signature *)
-Definition is_error (st : status) : bool := negb (status_eqb st KOK).
-
-Definition good {A} (r : res A) : Prop :=
-  is_ub r = false /\ r <> OutOfFuel /\
-  forall st stg, r = Err st stg -> is_error st = true /\ (st = KNOPROBE -> stg = StSignature).
-
-Lemma good_ok {A} (a : A) : good (Ok a).
-Proof. split; [reflexivity|split; [discriminate|discriminate]]. Qed.
-Lemma good_err {A} st stg : is_error st = true -> st <> KNOPROBE -> good (@Err A st stg).
-Proof.
-  intros H1 H2. split; [reflexivity|split; [discriminate|]].
-  intros st' stg' E. injection E as <- <-. split; [exact H1|]. intros E. now elim H2.
-Qed.
-Lemma good_noprobe {A} : good (@Err A KNOPROBE StSignature).
-Proof.
-  split; [reflexivity|split; [discriminate|]].
-  intros st' stg' E. injection E as <- <-. split; reflexivity.
-Qed.
 #[local] Hint Resolve good_ok good_noprobe : core.
 #[local] Hint Extern 1 (good (Err _ _)) => (apply good_err; [reflexivity|discriminate]) : core.
-
-Lemma good_bind {A B} (r : res A) (k : A -> res B) :
-  good r -> (forall a, r = Ok a -> good (k a)) -> good (bind r k).
-Proof.
-  intros [H1 [H2 H3]] Hk. destruct r; cbn in *; try discriminate; auto; try (exfalso; now apply H2).
-  split; [reflexivity|split; [discriminate|]]. intros st' stg' E. injection E as <- <-. now apply H3.
-Qed.
-
-Lemma good_chunk_err {A} st stg : st = KNODATA \/ st = KSYSTEM -> good (@Err A st stg).
-Proof. intros [->| ->]; auto. Qed.
-
-(** destruct the next checked read in the goal, discharging its bound by [lia] *)
-Ltac rd :=
-  match goal with
-  | |- context [cu8 ?c ?o] =>
-    let v := fresh "v" in let E := fresh "E" in
-    destruct (cu8_in c o) as [v E]; [lia|rewrite E; clear E]
-  | |- context [cu16 ?be ?c ?o] =>
-    let v := fresh "v" in let E := fresh "E" in
-    destruct (cu16_in be c o) as [v E]; [try (destruct be); lia|rewrite E; clear E]
-  | |- context [cu32 ?be ?c ?o] =>
-    let v := fresh "v" in let E := fresh "E" in
-    destruct (cu32_in be c o) as [v E]; [lia|rewrite E; clear E]
-  | |- context [cu64 ?be ?c ?o] =>
-    let v := fresh "v" in let E := fresh "E" in
-    destruct (cu64_in be c o) as [v E]; [lia|rewrite E; clear E]
-  end.
 
 Lemma hdr_chunk_cases alim f sect idx entsz off :
   (exists c, hdr_chunk alim f sect idx entsz off = Ok c /\ clen c = entsz) \/
